@@ -88,18 +88,23 @@ impl CompilerVersionError {
 
 pub struct NoCompilerVersionWarning {
     pub path: String,
+    pub file_id: Option<FileID>,
     pub version: Version,
 }
 impl NoCompilerVersionWarning {
     pub fn produce_report(error: Self) -> Report {
-        Report::warning(
+        let mut report = Report::warning(
             format!(
                 "The file `{}` does not include a version pragma. Assuming version {}.",
                 error.path,
                 version_string(&error.version)
             ),
             ReportCode::NoCompilerVersionWarning,
-        )
+        );
+        if let Some(file_id) = error.file_id {
+            report.add_primary(0..0, file_id, "No version pragma found in this file.".to_string());
+        }
+        report
     }
 }
 
